@@ -193,6 +193,8 @@ func cmdGen(args []string) {
 		genInject(r, out, *n, *per)
 	case "cpm":
 		genCPM(r, out, *n, *per)
+	case "runirq":
+		genRunIRQ(r, out, *n)
 	default:
 		fmt.Fprintln(os.Stderr, "unknown gen kind", kind)
 		os.Exit(2)
